@@ -32,7 +32,9 @@ def parseArr (s : String) : Except String (List Frame) :=
 def parseBaud (rate ty : String) : Except String (Option Baudrate) :=
   if rate == "-" then pure none else do
     let r ← nat rate
-    let t : BaudType := if ty == "f" then .fixed else if ty == "s" then .specific else .identifier
+    -- "a" = Baudrate.Type.Auto: the type the class guesses (a standard rate is Fixed, one byte an Identifier, else Specific)
+    let t : BaudType := if ty == "f" then .fixed else if ty == "s" then .specific else if ty == "i" then .identifier
+      else if (baudFixedId r).isSome then .fixed else if r ≤ 0xFF then .identifier else .specific
     pure (some ⟨r, t⟩)
 
 def parseEntry (s : String) : Except String Entry :=
